@@ -267,6 +267,7 @@ package measurements
 //@   requires numbers: !isNaN(alphaAverage) && !isNaN(alphaVariance)
 //@   establishes[C18] ret0 != nil ==> ret0
 //@   ensures[C18] fresh_state: ret0 != nil ==> ret1 == nil && fresh(ret0) && ret0.average.value == 0.0 && ret0.variance.value == 0.0 && ret0.average.seenSamples == 0 && ret0.variance.seenSamples == 0
+//@   ensures[C18] fresh_like_reset: ret0 != nil ==> ret0.stdev == 0.0 && ret0.normalized == 0.0 && ret0.average.alpha == ret0.average.initialAlpha && ret0.variance.alpha == ret0.variance.initialAlpha
 //@   ensures[C18] rejects: (alphaAverage < 0.0 || alphaAverage > 1.0 || alphaVariance < 0.0 || alphaVariance > 1.0) ==> ret0 == nil && ret1 != nil
 //@   assigns nothing
 //@ func NewWindowlessMovingPercentile
@@ -274,6 +275,7 @@ package measurements
 //@   requires numbers: !isNaN(movingAvgAlphaAvg) && !isNaN(movingVarianceAlphaVar) && isFinite(deltaInitial) && !isNaN(p)
 //@   establishes[C18] ret0 != nil ==> ret0
 //@   ensures[C18] fresh_state: ret0 != nil ==> ret1 == nil && fresh(ret0) && ret0.p == p && ret0.delta == deltaInitial && ret0.deltaInitial == deltaInitial
+//@   ensures[C18] fresh_like_reset: ret0 != nil ==> ret0.value == 0.0 && ret0.seenCount == 0 && ret0.deltaState.stdev == 0.0 && ret0.deltaState.normalized == 0.0 && ret0.deltaState.average.seenSamples == 0 && ret0.deltaState.average.value == 0.0 && ret0.deltaState.variance.seenSamples == 0 && ret0.deltaState.variance.value == 0.0
 //@   ensures[C18] rejects: (p <= 0.0 || p >= 1.0) ==> ret0 == nil && ret1 != nil
 //@   assigns nothing
 
